@@ -1,4 +1,4 @@
-import Ruint.Lemmas.RedcUint
+import Ruint.Lemmas.RedcGen
 import Ruint.Gen.RedcFacts
 
 /-!
@@ -138,6 +138,20 @@ theorem thresholds_sound :
     (∀ top, keepMul top = false → 2 * (top + 1) ≤ 2 ^ 64)
     ∧ (∀ top, keepSq top = false → 4 * (top + 1) ≤ 2 ^ 64) :=
   ⟨Ruint.Gen.RedcFacts.keepMul_sound, Ruint.Gen.RedcFacts.keepSq_sound⟩
+
+/-- **Tie to the source text**: on word inputs the model's word primitives (generic base, at `B = W`) are equal to
+    the definitions generated from the current Rust source by `tools/rs2lean.py` (`carrying_mul_add`,
+    `carrying_double_mul_add` of `mul_redc.rs`; `carrying_add`, `borrowing_sub` of `algorithms/mod.rs`), whose
+    contracts are re-proved on every run: an edit of one of these helpers that changes its meaning breaks this
+    obligation even if no sampled input notices. -/
+theorem word_primitives_match_source (l r a c : ℕ) (f : Bool)
+    (hl : l < W) (hr : r < W) (ha : a < W) (hc : c < W) :
+    Ruint.Gen.carrying_mul_add l r a c = carryingMulAdd W l r a c
+    ∧ Ruint.Gen.carrying_double_mul_add l r a c f = carryingDoubleMulAdd W l r a c f
+    ∧ Ruint.Gen.carrying_add l r f = carryingAdd W l r f
+    ∧ Ruint.Gen.borrowing_sub l r f = borrowingSub W l r f :=
+  ⟨gen_carrying_mul_add_eq l r a c hl hr ha hc, gen_carrying_double_mul_add_eq l r a c f hl hr ha hc,
+   gen_carrying_add_eq l r f hl hr, gen_borrowing_sub_eq l r f hl hr⟩
 
 /-! Non-vacuity: concrete instances evaluated by the kernel. `m = 2^128 − 159` (top limb `2^64 − 1`: the
 carry-keeping arms, accumulator overflows `2^128`), `a = m − 1`, `b = m − 2`, `inv = −m⁻¹ mod 2^64`;
